@@ -2,7 +2,7 @@ SPECIFICATION Spec
 CONSTANTS
   Keys = {"a", "b", "c"}
   Absent = {"d"}
-  Vals = {"1", "2"}
+  Vals = {"1", "2", "nil"}
   MaxRemove = 3
 INVARIANT KeysStayDistinct
 PROPERTIES OrderKept RemovesExactly
